@@ -1,0 +1,23 @@
+//go:build verif
+
+// Contracts for the verification harness in /verif (comment-only file; it is
+// never compiled into a normal build).  Syntax: see /verif/DESIGN.md §3.
+
+package core
+
+// ---------------------------------------------------------------- C18 shell quoting
+
+//@ func core.appendShellSafeQuote property C18
+//@   mode bytes
+//@   uses shdq utf8
+//@   monitor shdq sink buf expects s
+//@   opt replay shquote
+//@   requires validUTF8(s)
+//@   requires forall i :: 0 <= i && i < len(s) ==> s[i] != 0
+//@   ensures @accepts mon(result, q) == shdq_DONE
+//@   ensures @exact mon(result, k) == len(s)
+//@   loop 1 invariant suffix(s, s0)
+//@   loop 1 invariant validUTF8(s)
+//@   loop 1 invariant mon(buf, q) == shdq_DQ
+//@   loop 1 invariant mon(buf, k) == len(s0) - len(s)
+//@   loop 1 decreases len(s)
